@@ -59,6 +59,13 @@ func (p c01) ppDependency(c *core.Ctx) {
 		h := g.AddRandomNode(plainAB, 0.2)
 		g.SetTag(h, []string{"IA0", "Any0"}[c.Rng.Intn(2)], "wire", []string{"np-target", "np-req"}[c.Rng.Intn(2)])
 	}
+	// in a third of the cases the two components form a cycle (entered through the post-processor's own points
+	// while the processors are being set up), and the substituter is a priority-ordered one that is active then
+	early := c.Rng.Intn(3) == 0
+	if early {
+		g.EdgeByName(tgt, req, "", "iface")
+		g.EdgeByName(req, tgt, "", "iface")
+	}
 	g.ShuffleOrders()
 	plan := map[string]world.SubPlan{}
 	for _, nm := range []string{"np-target", "np-req"} {
@@ -67,7 +74,11 @@ func (p c01) ppDependency(c *core.Ctx) {
 		}
 	}
 	pp := &world.NamePP{}
-	r := world.Start(g.Sc, world.Options{Extra: []any{pp, world.NewSubstituter(plan)}})
+	var sub any = world.NewSubstituter(plan)
+	if early {
+		sub = &world.EarlySubstituter{Substituter: world.NewSubstituter(plan)}
+	}
+	r := world.Start(g.Sc, world.Options{Extra: []any{pp, sub}})
 	c.Count("starts", 1)
 	c.Count("post_processor_dependency_starts", 1)
 	detail := failDetail(g.Sc, r, map[string]any{"substitution_plan": plan})
